@@ -9,6 +9,7 @@ the transport starts failing.  Local primitives are only those pynetdicom's own 
 Monitors: online (state,event) conformance of every executed do_action (taps), exceptions escaping any thread,
 and at the end (peer closed, gate opened): provider thread finished, FSM idle (Sta1), raw socket closed.
 """
+import itertools
 import threading
 import time
 
@@ -34,10 +35,40 @@ LOCAL = ("Evt1", "Evt7", "Evt8", "Evt9", "Evt11", "Evt14", "Evt15")
 GATE = None
 
 
+ABLOG = []                 # (seq, "enter" | "issue", id(assoc), thread ident) - abort() entries and abort primitives handed to the provider
+_ABSEQ = itertools.count()
+ABHOLD = {"armed": False, "first": None}
+
+
+def _install_abort_taps():
+    from pynetdicom.association import Association
+    from pynetdicom.dul import DULServiceProvider
+    from pynetdicom.pdu_primitives import A_ABORT, A_P_ABORT
+    orig_abort = Association._abort_blocking
+    orig_send = DULServiceProvider.send_pdu
+
+    def tapped_abort(self, *a, **k):
+        ABLOG.append((next(_ABSEQ), "enter", id(self), threading.get_ident()))
+        return orig_abort(self, *a, **k)
+
+    def tapped_send(self, primitive):
+        if isinstance(primitive, (A_ABORT, A_P_ABORT)):
+            ABLOG.append((next(_ABSEQ), "issue", id(self.assoc), threading.get_ident()))
+            first = ABHOLD["first"]
+            if ABHOLD["armed"] and first is not None and not first.is_set():
+                # the first abort stays "being issued" (where an EVT_ACSE_SENT handler would run) while a second caller arrives
+                first.set()
+                time.sleep(0.08)
+        return orig_send(self, primitive)
+    Association._abort_blocking = tapped_abort
+    DULServiceProvider.send_pdu = tapped_send
+
+
 def setup_worker():
     global GATE
     harness.quiet_logging()
     taps.install()
+    _install_abort_taps()
     GATE = sched.DulGate()
     GATE.install()
 
@@ -194,6 +225,8 @@ def run_schedule(case, steps, role, counters):
     """steps: list of tuples; returns (violations, observation)."""
     rng = rng_for(case["seed"], PID, case.get("name", "r"), case["i"], "run")
     taps.reset()
+    del ABLOG[:]
+    ABHOLD.update(armed=False, first=threading.Event())
     viol = []
     trace = []
     ae = harness.make_ae(timeouts=(0.3, 0.5, 0.6, 1.0), supported=[VER, FIND], requested=[VER, FIND])
@@ -271,6 +304,20 @@ def run_schedule(case, steps, role, counters):
                 time.sleep(st[1]); trace.append("w%.2f" % st[1])
                 if st[1] >= 0.3:
                     nominal = False
+            elif kind == "user" and st[1] == "abort-twice-staggered":
+                # two user threads abort the same association; the second one arrives while the first abort is being issued
+                nominal = False
+                ABHOLD["armed"] = True
+                first = ABHOLD["first"]
+
+                def second():
+                    first.wait(2.0)
+                    _quiet_call(target.abort)
+                for fn in (target.abort, second):
+                    t = threading.Thread(target=_quiet_call if fn is target.abort else fn, args=((fn,) if fn is target.abort else ()), daemon=True)
+                    t.start(); user_threads.append(t)
+                trace.append("u:abort-twice-staggered")
+                time.sleep(0.12)
             elif kind == "user":
                 nominal = False
                 fn = {"abort": target.abort, "release": target.release, "shutdown": ae.shutdown}[st[1]]
@@ -294,7 +341,24 @@ def run_schedule(case, steps, role, counters):
             if pr["kind"] == "invalid-event":
                 ev, stt = pr["pair"].split("@")
                 if ev in LOCAL:
-                    viol.append({"key": "invalid-event|local-primitive|%s" % pr["pair"], "detail": "%r trace=%r" % (pr, trace)})
+                    fam = "local-primitive"
+                    if ev == "Evt15":
+                        # a second abort() that ENTERED after an earlier abort primitive of the same association was already being
+                        # issued must stop at the single-abort guard; only calls that entered concurrently (before the first one
+                        # set the flag) belong to the known double-abort race
+                        issues = [(q_, th) for (q_, k_, aid, th) in ABLOG if aid == id(target) and k_ == "issue"]
+                        enters = [(q_, th) for (q_, k_, aid, th) in ABLOG if aid == id(target) and k_ == "enter"]
+                        # only aborts issued through Association.abort() count (the ACSE's own A-ABORTs after a timeout do not go
+                        # through the guard: a user abort() after one of those stays in the known family)
+                        guarded = []
+                        for (qb, th) in issues:
+                            e_ = max((q_ for (q_, t2) in enters if t2 == th and q_ < qb), default=None)
+                            if e_ is not None:
+                                guarded.append((e_, qb))
+                        if any(e2 > i1 for (e1, i1) in guarded for (e2, i2) in guarded if i2 > i1):
+                            fam = "local-abort-entered-after-an-earlier-abort-was-being-issued"
+                    viol.append({"key": "invalid-event|%s|%s" % (fam, pr["pair"]), "detail": "%r trace=%r aborts=%r" % (
+                        pr, trace, [(q_, k_) for (q_, k_, aid, th) in ABLOG if aid == id(target)])})
                 elif pr["pair"] == "Evt18@Sta3":
                     # mechanism discriminators: (a) was the A-ASSOCIATE-RQ already read (queued) before Evt5 started ARTIM?
                     # (b) otherwise: had ARTIM (0.3 s) already expired when the iteration that read the RQ began (then a
@@ -418,6 +482,9 @@ TARGETED = {
     # invalid PDU moves the provider to Sta13, then the local user aborts / releases
     "abort-in-sta13": ("acceptor", UP + [("peer", "invalid"), ("grant", 1), ("user", "abort"), ("grant", 4)]),
     "release-in-sta13": ("acceptor", UP + [("peer", "invalid"), ("grant", 1), ("user", "release"), ("grant", 4)]),
+    # two user threads abort; the second arrives while the first abort is being issued (must stop at the single-abort guard)
+    "second-abort-while-first-is-being-issued": ("acceptor", UP + [("user", "abort-twice-staggered"), ("grant", 6)]),
+    "second-abort-while-first-is-being-issued-requestor": ("requestor", [("grant", 3), ("peer", "proper"), ("grant", 4), ("user", "abort-twice-staggered"), ("grant", 6)]),
     # handler still producing C-FIND responses when an invalid PDU arrives
     "pdata-queued-when-invalid-arrives": ("acceptor", UP + [("hold", 1), ("peer", "proper"), ("grant", 2), ("peer", "proper"), ("grant", 3),
                                                            ("peer", "invalid"), ("grant", 1), ("hold", 0), ("wait", 0.05), ("grant", 4)]),
